@@ -14,6 +14,10 @@ META = {
  "C06": w("is_completed() compared with the model after every operation; sequence teardown listing compared in registration order.", "DESIGN.md 5/C06"),
  "C07": w("Exploration of stacks of allowing/forbidding expectations; one fatal forbidden report with location and arguments, no action, no state change.", "DESIGN.md 5/C07"),
  "C08": w("Clause log (side effects, RETURN/THROW, WITH) compared with the model's expected evaluation order, including throwing and nested calls.", "DESIGN.md 5/C08"),
+ "C12": dict(engine="T (threads: TSan free-running + owned schedules)", design_ref="DESIGN.md 5/C12",
+             level_text="Generated multi-threaded programs run under ThreadSanitizer (races), under generated and exhaustively enumerated lock-order schedules (custom mutex), each checked for linearizability against a sequential model in lock order.",
+             level_note="Trusted: ThreadSanitizer, the custom-mutex shim (documented TROMPELOEIL_CUSTOM_RECURSIVE_MUTEX), the sequential model in harness/threads/t_main.cpp. TSan sees races only on executions that happen; mode B/E explore lock-order interleavings only.",
+             technique="property-based testing of concurrent programs: rapidcheck-generated programs and schedules, ThreadSanitizer, linearizability check against a sequential model"),
  "C13": w("Exploration of watch/unwatch/destroy/copy/move/assign histories over three deathwatched objects with up to two requirements each.", "DESIGN.md 5/C13"),
  "C14": w("Destruction/move orders of every kind of object under ASan/UBSan/LSan with library sanity asserts, the model checking behaviour on survivors.", "DESIGN.md 5/C14"),
  "C15": w("Every report produced in the explored histories is checked for severity by origin, culprit location, listing and argument values.", "DESIGN.md 5/C15"),
@@ -24,7 +28,6 @@ NOT_APPLICABLE = {
  "C09": "check not built yet (engine P, generated parameter-passing programs) - in progress, see DESIGN.md 5/C09",
  "C10": "check not built yet (engine M, matcher trees) - in progress, see DESIGN.md 5/C10",
  "C11": "check not built yet (engine R, range matchers) - in progress, see DESIGN.md 5/C11",
- "C12": "check not built yet (engine T, threads under TSan and owned schedules) - in progress, see DESIGN.md 5/C12",
  "C18": "check not built yet (engine S, printing) - in progress, see DESIGN.md 5/C18",
  "C19": "check not built yet (engine K, generated compile-time programs) - in progress, see DESIGN.md 5/C19",
  "C20": "check not built yet (engine Q, coroutines) - in progress, see DESIGN.md 5/C20",
@@ -33,3 +36,4 @@ ENGINES = [
  dict(name="W", path="harness/world", serves_properties=["C01","C02","C03","C04","C05","C06","C07","C08","C13","C14","C15","C16","C17"],
       kind_free_text="rapidcheck stateful generation of API histories, interpreted against the real library and a reference model; ASan+UBSan"),
 ]
+ENGINES.append(dict(name="T", path="harness/threads", serves_properties=["C12"], kind_free_text="rapidcheck-generated thread programs; TSan build (free running) and ASan build (owned / enumerated schedules) through the custom recursive mutex"))
